@@ -184,7 +184,7 @@ def run(run):
     run.floor('C07.b', 20)
     from rules import flow_rules
     fcfgs = ['PSHL', 'PHV'] if run.tier == 'quick' else ['P', 'PH', 'PSHL', 'PHV', 'PSHVRDT', 'H']
-    flow_rules.flow_obligations(run, {'C07.c', 'C02.d', 'C11.b'}, cfgs=fcfgs)
+    run.guard('flow obligations', flow_rules.flow_obligations, run, {'C07.c', 'C02.d', 'C11.b'}, cfgs=fcfgs)
     for c in fcfgs:
         for v in facts.variants(run.tier):
             F = facts.load('w_core', c, v)
@@ -196,8 +196,8 @@ def run(run):
             # nothing but the request writers and request processing touches the slot
             from lint import effects as _eff
             E2 = _eff.Effects(F)
-            c02.request_writers(run, F, E2)
-            c02.request_slot_writers(run, F, E2, 'C07.f')
+            run.guard('request writers', c02.request_writers, run, F, E2)
+            run.guard('request slot writers', c02.request_slot_writers, run, F, E2, 'C07.f')
             run.relabel('C02.a', 'C07.f')
             facts.drop(F)
     run.floor('C07.c', 40)
